@@ -54,6 +54,22 @@ impl<'ast> Visitor<'ast> for ContainsHoistedDeclarationsVisitor {
         self.found = true;
         ControlFlow::Break(())
     }
+
+    fn visit_iterable_loop_initializer(
+        &mut self,
+        node: &'ast boa_ast::statement::iteration::IterableLoopInitializer,
+    ) -> ControlFlow<Self::BreakTy> {
+        // `for (var x in o)` / `for (var x of o)` declare `x` in the enclosing function scope,
+        // but the binding is a `Variable`, not a `VarDeclaration`.
+        if matches!(
+            node,
+            boa_ast::statement::iteration::IterableLoopInitializer::Var(_)
+        ) {
+            self.found = true;
+            return ControlFlow::Break(());
+        }
+        node.visit_with(self)
+    }
 }
 
 #[derive(Debug, Default)]
